@@ -210,23 +210,27 @@ def run(ctx: Ctx):
                                               f"line {c.lineno}: `{ast.unparse(c)[:100]}` compares unit-bearing data with an absolute tolerance "
                                               "(numpy default atol=1e-8): the decision changes when the same isotherm is expressed in a smaller unit"))
     ctx.rule("R-scale: no comparison with an absolute tolerance on isotherm data inside pygaps.characterisation")
-    # kernel PSD: defaults of the kernel_units lookups are a complete representation
+    # kernel PSD: with kernel_units omitted the data are read in a complete literal representation (interpreted, not matched)
+    from ..absint import Obj, Term
+    from .C18 import mk as mk_terms
     fi = model.func("pygaps.characterisation.psd_kernel.psd_dft")
-    src = ast.unparse(fi.node)
-    need = ["kernel_units.get('loading_basis', 'molar')", "kernel_units.get('loading_unit', 'mmol')",
-            "kernel_units.get('pressure_mode', 'relative')"]
-    miss = [x for x in need if x not in src]
-    ctx.ob(not miss, Finding("C15.R-pin", fi.where, f"psd_dft|kernel-unit-defaults:{miss}",
-                             f"psd_dft no longer takes {miss} from kernel_units with the documented defaults"),
+    I = mk_terms(model)
+    cap = {}
+
+    def reader(I, fi_, env, n):
+        cap["loading_units"], cap["pressure_units"] = env.get("loading_units"), env.get("pressure_units")
+        return (Term("P_in"), Term("L_in"))
+    I.overrides["pygaps.utilities.pygaps_utilities.get_iso_loading_and_pressure_ordered"] = reader
+    I.overrides["pygaps.characterisation.psd_kernel.psd_dft_kernel_fit"] = lambda I, fi_, env, n: (Term("W"), Term("D"), Term("C"), Term("F"))
+    outs = I.explore(lambda I: I.call_func(fi, [Obj(kind="IsoStub", label="iso", attrs={})], {}, None))
+    lu, pu = cap.get("loading_units"), cap.get("pressure_units")
+    want_l = {"loading_basis": "molar", "loading_unit": "mmol", "material_basis": "mass", "material_unit": "g"}
+    okk = isinstance(lu, dict) and isinstance(pu, dict) and all(lu.get(k) == v for k, v in want_l.items()) \
+        and pu.get("pressure_mode") == "relative" and pu.get("pressure_unit") is None
+    ctx.ob(okk, Finding("C15.R-pin", fi.where, "psd_dft|kernel-unit-defaults",
+                        f"psd_dft() without kernel_units reads the isotherm with {lu} / {pu}; the documented kernel representation is "
+                        f"{want_l} / relative pressure"),
            nontrivial_key=("kernel-defaults",))
-    # isosteric enthalpy: pressures only enter through logarithms (a common pressure unit cancels in the slope)
-    raw = model.func("pygaps.characterisation.isosteric_enth.isosteric_enthalpy_raw")
-    uses = [ast.unparse(n) for n in ast.walk(raw.node) if isinstance(n, ast.Call) and ast.unparse(n.func) in ("numpy.log", "np.log")]
-    ctx.ob(any("pressure" in u for u in uses), Finding("C15.R-pin", raw.where, "isosteric_raw|pressures-not-under-log",
-                                                       "isosteric_enthalpy_raw must use the pressures only through numpy.log (so that a common unit cancels)"),
-           nontrivial_key=("isosteric-log",))
-    ctx.analysed["read_sites"] = nsites
-    ctx.analysed["exempt"] = EXEMPT
 
 
 META = {
